@@ -12,6 +12,7 @@ MODEL_DEPS := $(addprefix coq/,$(filter-out Props/% Proofs/%,$(VFILES)))
 # current source into coq/Generated/ExprTable.v (rewritten only when it changes)
 gen:
 	python3 tools/gen_exprtable.py
+	python3 tools/gen_tokentable.py
 
 setup: coq model harness harness-race
 
